@@ -655,6 +655,9 @@ func (in *Interp) operandVal(st *State, e ast.Expr, val Val) string {
 
 // eqCond orders the operands of == canonically (constants and nil last).
 func eqCond(l, r string) string {
+	if l == r && (l == "nil" || isNumeric(l)) {
+		return "true"
+	}
 	if l == "nil" || isNumeric(l) && !isNumeric(r) {
 		l, r = r, l
 	} else if !isNumeric(r) && r != "nil" && r < l {
